@@ -154,6 +154,10 @@ class Trace:
                         got_end.add((l[1], m[2]))
                     if m[0] == 'frame' and m[1] in (1, 2) and sent_at < connect_at.get((l[1], m[2]), -1):
                         stale[l[1]] = True
+                    if m[0] == 'frame' and m[1] in (1, 2, 3, 4) and sent_at < connect_at.get((l[1], m[2]), -1):
+                        self.fail('C06', "label %d: a %s frame of an earlier incarnation of flow %d (sent at label %d, before endpoint %d's new Connect at label %d) "
+                                  "is delivered into the new incarnation: something of the old stream leaks into the stream that reuses its id"
+                                  % (k, OPC[m[1]], m[2], sent_at, l[1], connect_at[(l[1], m[2])]), "id-reuse-stale-frame")
             if op == 18:
                 d = l[1]
                 if res == [0] and link[d]:
@@ -162,6 +166,10 @@ class Trace:
                         got_end.add((1 - d, m[2]))
                     if m[0] == 'frame' and m[1] in (1, 2) and sent_at < connect_at.get((1 - d, m[2]), -1):
                         stale[1 - d] = True
+                    if m[0] == 'frame' and m[1] in (1, 2, 3, 4) and sent_at < connect_at.get((1 - d, m[2]), -1):
+                        self.fail('C06', "label %d: a %s frame of an earlier incarnation of flow %d (sent at label %d, before endpoint %d's new Connect at label %d) "
+                                  "is delivered into the new incarnation: something of the old stream leaks into the stream that reuses its id"
+                                  % (k, OPC[m[1]], m[2], sent_at, 1 - d, connect_at[(1 - d, m[2])]), "id-reuse-stale-frame")
             for e in (0, 1):
                 for em in emitted[e]:
                     if em[0] == 'frame':
